@@ -70,6 +70,8 @@ type Engine struct {
 	specCallCache map[string]SV
 	deferred      []string // clauses only checked in the thorough tier
 	skolemPool    []*Term
+	lazy          []*lazyHyp
+	eagerConstInst bool
 }
 
 func loadWorld(repo string, pkgPatterns []string) (*World, error) {
@@ -144,6 +146,7 @@ func (w *World) newEngine() *Engine {
 		specCallCache: map[string]SV{}, boundedLoops: map[string]int{}, pureCache: map[*ssa.Function]bool{}, maxNodes: 20000, autoInlineMax: 60}
 	e.mc.rom = e.romLookup
 	e.skolemPool = []*Term{tb.Var("sk!0", BV(64)), tb.Var("sk!1", BV(64))}
+	e.eagerConstInst = true
 	return e
 }
 
@@ -364,12 +367,10 @@ func (w *World) verifyFunc(name string, con *Contract) (jr *JobResult) {
 	f.params, f.free, f.entryMem, f.entryGh = args, free, mem0, gh0
 	sc := f.entryScope(args, free, mem0)
 	for _, r := range con.Requires {
-		sc.goal = false
-		e.assume(e.evalBool(sc, r.Expr, r.Text))
+		e.assumeClause(sc, r.Expr, r.Text, nil)
 	}
 	for _, r := range con.Assumes {
-		sc.goal = false
-		e.assume(e.evalBool(sc, r.Expr, r.Text))
+		e.assumeClause(sc, r.Expr, r.Text, nil)
 		e.trusted["assumption stated on "+name+": "+r.Text] = true
 	}
 	for _, r := range con.Modifies {
